@@ -59,6 +59,15 @@ CHECKS = {
    text="Every few operations the harness sweeps lower_bound over every key in/between/below/above the stored keys (exact comparator) and every prefix (wildcard comparator), iterator equality and a full walk; every remove reports its next; "
         "the dereferenced element (API) and the index path per level (white-box) are compared with the model. Theorems (lower_bound = first not-less, increment walks in order, equality iff same position, remove-next = successor) are being added.",
    note="Search comparator compatibility (monotone) is the API's contract.", ref="§5 C02"),
+ "C10": dict(cat="translation_validation", tech="Lean 4 executable model of the C scans (index ranges) and Lean transcription of the C++17 rules, both validated: model vs implementation, rules vs libstdc++, implementation vs libstdc++; theorems in progress",
+   text="Every string over {/ . a} up to length 9 (12 thorough): the eight views as (offset,length), all queries and the component iterator frames equal the model's; the harness judges each answer against libstdc++ and checks slices; ASan with exact-size inputs observes that nothing outside the string is read.",
+   note="POSIX build only; libstdc++ 12 stands in for the C++17 model; out-of-bounds reads are runtime-checked.", ref="§5 C10"),
+ "C11": dict(cat="translation_validation", tech="Lean 4 executable model of the element-by-element normaliser and Lean transcription of [fs.path.generic]/6, validated against implementation and libstdc++; theorems in progress",
+   text="Every string over {/ . a} up to length 9 (12 thorough): output text equals the model's; on the implementation itself: normal form, same path as libstdc++ lexically_normal, idempotent.",
+   note="POSIX build; a multi-separator root is collapsed to one separator (same path).", ref="§5 C11"),
+ "C12": dict(cat="translation_validation", tech="Lean 4 executable model of join / lexically_relative (over the component-iterator model) / preferred, validated against implementation and libstdc++ on all pairs of short strings; theorems in progress",
+   text="All pairs of strings over {/ . a} up to length 5 (6 thorough) plus random pairs and NULL arguments: text (or NULL) equals the model's; join judged against operator/ text, relative against libstdc++ (NULL iff empty, same path); ASan with exact-size arguments.",
+   note="POSIX build.", ref="§5 C12"),
 }
 
 NOT_YET = "check not built yet in this revision (framework under construction; see DESIGN.md §8)"
